@@ -22,6 +22,13 @@ namespace {
 const char* KEY_DROPPED_ALL = "C20|density|sketch with n>0 reports is_empty (estimate refused, merge drops its n)|a compaction dropped every retained point (kernel value 0 between the points)";
 const char* KEY_WRONG_QUERY = "C20|density|get_estimate accepts a query point of the wrong dimension|query.size() != dim";
 
+// get_estimate computes the weight of a level as the int expression (1 << height): undefined from height 31 on, i.e. for a
+// sketch with more than 31 levels (UBSan would abort the process, so the harness refuses to go there and reports the
+// state instead). The iterator uses 1ULL << height: undefined from 64 on. Only kernels with negative values get there
+// with small inputs: every compaction may then promote ALL points, so the number of levels grows linearly with n.
+const char* KEY_LEVEL_INT = "C20|density|get_estimate computes the level weight as int (1 << height), undefined for more than 31 levels|signed user kernel, every compaction promotes all points";
+const char* KEY_LEVEL_64 = "C20|density|weight 2^level of the iterator (1ULL << height) not representable for more than 64 levels|signed user kernel, every compaction promotes all points";
+
 uint64_t g_kernel_bad_dim = 0;  // user kernel called with a vector whose size is not the configured dimension
 
 // ------------------------------------------------------------------ user-supplied kernels (stateful)
@@ -182,11 +189,22 @@ struct Harness {
     return sh;
   }
 
+  // must run before anything that iterates or estimates (see KEY_LEVEL_INT)
+  Shape guard_levels(Slot& s, const std::string& after) {
+    static const uint64_t max_int_levels = static_cast<uint64_t>(std::min<long>(64, std::max<long>(1, vf::env_long("C20_MAX_LEVELS", 31))));
+    Shape sh = parse_shape(*s.sk);
+    VF_CHECK_K(sh.levels <= 64, "level-weight-unrepresentable", KEY_LEVEL_64, "after " << after << ": " << sh.levels << " levels (n " << s.n << ", k " << s.k
+               << "): iteration would evaluate 1ULL << " << (sh.levels - 1));
+    VF_CHECK_K(sh.levels <= max_int_levels, "level-weight-overflow", KEY_LEVEL_INT, "after " << after << ": " << sh.levels << " levels (n " << s.n << ", k " << s.k
+               << "): get_estimate would evaluate the int expression 1 << " << (sh.levels - 1));
+    return sh;
+  }
+
   void check_state(Slot& s, const std::string& after, bool full) {
     const Sk& sk = *s.sk;
     VF_CHECK(sk.get_n() == s.n, "n-exact", "after " << after << ": get_n " << sk.get_n() << " model " << s.n);
     VF_CHECK(sk.get_k() == s.k && sk.get_dim() == s.dim, "config", "k/dim " << sk.get_k() << "/" << sk.get_dim());
-    Shape sh = parse_shape(sk);
+    Shape sh = guard_levels(s, after);
     VF_CHECK(sh.levels >= 1 && sh.levels == sh.sizes.size(), "to-string-levels", "Levels " << sh.levels << " level lines " << sh.sizes.size());
     VF_CHECK(sh.n == s.n && sh.k == s.k && sh.dimv == s.dim && sh.retained == sk.get_num_retained(), "to-string-summary",
              "summary N/K/Dim/Retained " << sh.n << "/" << sh.k << "/" << sh.dimv << "/" << sh.retained);
@@ -251,6 +269,7 @@ struct Harness {
       VF_CHECK(threw, "empty-estimate-refused", "get_estimate on a sketch with n=0 returned a value");
       return;
     }
+    guard_levels(s, after);
     T est = 0;
     bool threw = false; std::string what;
     try { est = sk.get_estimate(q); } catch (const std::exception& e) { threw = true; what = e.what(); }
@@ -419,6 +438,7 @@ struct Harness {
     for (const auto& wq : wrong_queries) {
       Slot& s = slots[wq.first];
       if (s.n == 0 || s.sk->get_num_retained() == 0) continue;
+      guard_levels(s, "end/wrong-dim-query");
       int64_t delta = wq.second.first % 3; if (delta == 0) delta = 1;
       if (delta < 0 && !std::is_same<K, UserKernel<T>>::value) delta = -delta;
       int64_t d = static_cast<int64_t>(dim) + delta; if (d < 0) d = 0;
